@@ -1044,14 +1044,20 @@ def run_c03(tier, seed, t0, replay_item=None):
             chosen, seen = [], {}
             for p in pipelines:
                 keys = [("c", p[0]), ("e", p[2]), ("s", p[3]), ("ce", p[0], p[2]), ("es", p[2], p[3])]
-                if any(seen.get(k, 0) < 1 for k in keys):
+                if any(seen.get(k, 0) < 1 for k in keys) or seen.get(("c", p[0]), 0) < len(conc.RECORD_SIZES):
                     chosen.append(p)
                     for k in keys:
                         seen[k] = seen.get(k, 0) + 1
             pipelines = chosen[:60]
         items = []
+        # every compression format meets every record size (the encoders take parameters from it): per format the
+        # record sizes are dealt out in a shuffled cycle instead of drawn independently
+        deal = {}
         for i, (c, l, e, s) in enumerate(pipelines):
-            rs = rng.choice(conc.RECORD_SIZES)
+            if c not in deal or not deal[c]:
+                deal[c] = list(conc.RECORD_SIZES)
+                rng.shuffle(deal[c])
+            rs = deal[c].pop()
             sizes = conc.SIZE_CLASSES(rs) + [0]
             for j in range(3 if tier == "quick" else 10):
                 size = rng.choice(sizes)
